@@ -39,6 +39,40 @@ impl<const SEED: u32> HashFunction for Toy<SEED> {
     }
 }
 
+/// the same with a 48-byte digest (as SHA-384's): six toy hashes with seeds SEED, SEED + 3, ... side by side (Rdfc10.tla: Wide)
+pub struct ToyWide<const SEED: u32>([[u32; 4]; 6]);
+impl<const SEED: u32> HashFunction for ToyWide<SEED> {
+    type Output = [u8; 48];
+    fn initialize() -> Self {
+        let mut st = [[0u32; 4]; 6];
+        for (k, part) in st.iter_mut().enumerate() {
+            for i in 0..4 {
+                part[i] = INIT[i] + SEED + 3 * k as u32;
+            }
+        }
+        ToyWide(st)
+    }
+    fn update(&mut self, data: impl AsRef<[u8]>) {
+        for b in data.as_ref() {
+            for part in self.0.iter_mut() {
+                for i in 0..4 {
+                    part[i] = (part[i] * MULT[i] + *b as u32) % PRIME[i];
+                }
+            }
+        }
+    }
+    fn finalize(self) -> [u8; 48] {
+        let mut o = [0u8; 48];
+        for (k, part) in self.0.iter().enumerate() {
+            for i in 0..4 {
+                o[8 * k + 2 * i] = (part[i] >> 8) as u8;
+                o[8 * k + 2 * i + 1] = (part[i] & 0xff) as u8;
+            }
+        }
+        o
+    }
+}
+
 fn b(i: usize) -> ST {
     bn(&format!("e{i}"))
 }
@@ -279,6 +313,12 @@ fn toy<const SEED: u32>(d: &[Q], depth_factor: f32, perm_limit: usize) -> Value 
     let r = rdfc10::normalize_with::<Toy<SEED>, _, _>(&x, &mut out, depth_factor, perm_limit);
     res_json(r.map(|()| out))
 }
+fn toy_wide(d: &[Q], depth_factor: f32, perm_limit: usize) -> Value {
+    let x: HashSet<Spog<ST>> = d.iter().cloned().collect();
+    let mut out = vec![];
+    let r = rdfc10::normalize_with::<ToyWide<0>, _, _>(&x, &mut out, depth_factor, perm_limit);
+    res_json(r.map(|()| out))
+}
 fn toy_idmap<const SEED: u32>(d: &[Q]) -> Value {
     let x: HashSet<Spog<ST>> = d.iter().cloned().collect();
     match rdfc10::relabel_with::<Toy<SEED>, _>(&x, rdfc10::DEFAULT_DEPTH_FACTOR, rdfc10::DEFAULT_PERMUTATION_LIMIT) {
@@ -379,7 +419,8 @@ pub fn main(args: &[String]) {
                     3 => (2.0, 6),
                     _ => (rdfc10::DEFAULT_DEPTH_FACTOR, rdfc10::DEFAULT_PERMUTATION_LIMIT),
                 };
-                let (res, idmap, seedv) = match i % 3 {
+                let (res, idmap, seedv) = match if i % 16 == 15 { 3 } else { i % 3 } {
+                    3 => (toy_wide(&c, df, pl), json!([]), 100),
                     0 => (toy::<0>(&c, df, pl), toy_idmap::<0>(&c), 0),
                     1 => (toy::<1>(&c, df, pl), toy_idmap::<1>(&c), 1),
                     _ => (toy::<2>(&c, df, pl), toy_idmap::<2>(&c), 2),
